@@ -5,6 +5,7 @@ package extendeddaemonsetreplicaset
 import (
 	"context"
 	autoscalingv1 "k8s.io/api/autoscaling/v1"
+	"k8s.io/apimachinery/pkg/api/resource"
 	"strconv"
 	"time"
 
@@ -418,6 +419,11 @@ func ZZ_C02_brokenSettingDoesNotBlock() {
 		ok.Spec.Reference = &autoscalingv1.CrossVersionObjectReference{Kind: "ExtendedDaemonSet", Name: zzEDSName}
 		ok.Spec.NodeSelector = metav1.LabelSelector{MatchLabels: map[string]string{"pool": "a"}}
 		ok.Status.Status = datadoghqv1alpha1.ExtendedDaemonsetSettingStatusValid
+		// the setting overrides the resources of the container with quantities written the way users write
+		// them (not canonical); the pod comes back from the API server with canonical ones
+		ok.Spec.Containers = []datadoghqv1alpha1.ExtendedDaemonsetSettingContainerSpec{{Name: "agent", Resources: corev1.ResourceRequirements{
+			Requests: corev1.ResourceList{corev1.ResourceCPU: resource.MustParse("0.5"), corev1.ResourceMemory: resource.MustParse("1024Mi")}}}}
+		c.CanonicalQuantities = true
 		if nondet.Bool("validSettingListedFirst") {
 			c.Settings = []*datadoghqv1alpha1.ExtendedDaemonsetSetting{ok, broken}
 		} else {
@@ -444,6 +450,12 @@ func ZZ_C02_brokenSettingDoesNotBlock() {
 		zzKubelet(c)
 	}
 	nondet.Assert("C02.broken-setting.converges", converged())
+	// "further reconciles create or delete nothing"
+	before := len(c.Writes())
+	_, _ = zzReconcile(r, zzNS, rsNew.Name)
+	for _, e := range c.Writes()[before:] {
+		nondet.Assert("C02.broken-setting.quiescent", e.Kind != "Pod")
+	}
 	nondet.Observe("pods", len(c.Pods))
 	nondet.Reach("C02.broken-setting.done", converged())
 }
